@@ -1,6 +1,6 @@
 (* C14 entry of the correspondence dispatcher. *)
 From Coq Require Import List NArith ZArith Bool Ascii String.
-From Authlib Require Import Base.Bytes Base.PyVal Model.ClientState.
+From Authlib Require Import Base.Bytes Base.PyVal Model.ClientState Model.Transport.
 Import ListNotations.
 Open Scope string_scope.
 
@@ -33,4 +33,10 @@ Definition dispatch_clientstate (fn : string) (a : pv) : option pv :=
     Some (PDict [("outs", PList (map pv_of_cout (crun_outs mode (arg_b "clears_old" a) (arg_z "expires_in" a) o1 s0 ops)));
                  ("sessions", PList (map (fun l => PList (map pv_of_entry l)) (c_sessions fin)));
                  ("cache", PList (map pv_of_entry (c_cache fin)))])
+  else if String.eqb fn "request_reading" then
+    (* Model/Transport.v: what a request wrapper reads for one name out of the query and the form *)
+    let prs := fun k => map (fun p => match pv_list p with [x; y] => (pv_str x, pv_str y) | _ => ("", "") end) (arg_l k a) in
+    let w := arg_s "wrapper" a in
+    Some (opt_pv PStr ((if String.eqb w "flask" then flask_data else if String.eqb w "django" then django_data else neutral_data)
+                         (prs "query") (prs "form") (arg_s "name" a)))
   else None.
